@@ -1,7 +1,19 @@
 (* C05 - Point and cloud timestamps are an exact function of the packet clock. *)
 From RS Require Import Base.Tac Base.Bytes Base.Dyadic Model.Desc Model.Kernels Model.Decoder Model.Driver Model.Oracles.
+From RS Require Import Gen.Kernels_gen Proofs.Eq_Time.
 From RS Require Import Gen.Params_gen Proofs.Stream Proofs.Slots Proofs.TimeCodec Proofs.Timestamps Proofs.DriverInv.
 Local Open Scope Z_scope.
+
+(* T0: the UTC codec of the current source (parseTimeUTCWithUs / createTimeUTCWithUs regenerated from basic_attr.hpp by kt.py, loops
+   unrolled, uint64 wrap explicit) is the model's, for every field content and every uint64 microsecond count *)
+Theorem C05_T0_parse_utc_is_model b0 b1 b2 b3 b4 b5 c0 c1 c2 c3 :
+  0 <= b0 < 256 -> 0 <= b1 < 256 -> 0 <= b2 < 256 -> 0 <= b3 < 256 -> 0 <= b4 < 256 -> 0 <= b5 < 256 ->
+  0 <= c0 < 256 -> 0 <= c1 < 256 -> 0 <= c2 < 256 -> 0 <= c3 < 256 ->
+  fn_parseTimeUTCWithUs b0 b1 b2 b3 b4 b5 c0 c1 c2 c3 = parse_utc [b0; b1; b2; b3; b4; b5; c0; c1; c2; c3] 0.
+Proof. exact (gen_parse_utc_eq b0 b1 b2 b3 b4 b5 c0 c1 c2 c3). Qed.
+Theorem C05_T0_create_utc_is_model us : 0 <= us < 2 ^ 64 -> fn_createTimeUTCWithUs us = create_utc us.
+Proof. exact (gen_create_utc_eq us). Qed.
+Print Assumptions C05_T0_create_utc_is_model.
 
 (* T1: the 6+4-byte UTC header format *)
 Theorem C05_T1_utc_roundtrip t rest : 0 <= t < 18446744073709551616 -> parse_utc (create_utc t ++ rest) 0 = t.
